@@ -792,6 +792,44 @@ pub fn adjacent_range_family(pool: &Pool) -> Vec<T> {
             }
         }
     }
+    // sub-terms whose classes tile the whole alphabet with two or more intervals (no complementary class although
+    // the term distinguishes characters), next to siblings with classes of their own
+    {
+        let x = |k: u32| T::Chr(120 + k);
+        let cut = pool.a;
+        let lo_r = T::Rng(0, cut);
+        let hi_r = T::Rng(cut + 1, MAX_CHAR);
+        let hi_o = T::Rng(cut, MAX_CHAR);
+        let tiles: Vec<T> = vec![
+            T::Cat2(b(&T::Opt(b(&lo_r))), b(&hi_r)),
+            T::Cat2(b(&T::Star(b(&lo_r))), b(&hi_o)),
+            T::Alt2(b(&T::Cat2(b(&lo_r), b(&x(0)))), b(&T::Cat2(b(&hi_r), b(&x(1))))),
+            T::AltL(vec![
+                T::Cat2(b(&T::Rng(0, 47)), b(&x(0))),
+                T::Cat2(b(&T::Rng(48, cut)), b(&x(1))),
+                T::Cat2(b(&hi_r), b(&x(2))),
+            ]),
+            T::Alt2(b(&T::Cat2(b(&lo_r), b(&T::All))), b(&T::Cat2(b(&hi_r), b(&x(1))))),
+        ];
+        let sibs: Vec<T> = vec![
+            T::Str(vec![pool.c, pool.c]),
+            T::Chr(pool.b),
+            T::Cat2(b(&T::Rng(pool.b, pool.c)), b(&x(3))),
+            T::Cat2(b(&T::All), b(&T::Chr(pool.c))),
+        ];
+        for t in &tiles {
+            v.push(t.clone());
+            for s in &sibs {
+                v.push(T::Alt2(b(t), b(s)));
+                v.push(T::Alt2(b(s), b(t)));
+                v.push(T::And2(b(t), b(&T::Not(b(s)))));
+                v.push(T::And2(b(&T::Cat2(b(t), b(&T::All))), b(&T::Cat2(b(s), b(&T::All)))));
+                v.push(T::Cat2(b(&T::Opt(b(s))), b(t)));
+                v.push(T::Cat2(b(&T::Opt(b(t))), b(s)));
+                v.push(T::Not(b(&T::Alt2(b(t), b(s)))));
+            }
+        }
+    }
     for i in 0..n {
         for j in 0..n {
             for k in 0..n {
